@@ -186,7 +186,7 @@ def zip_harness(w, nl, nr, iters, max_len, timed=False, cut='each'):
 
 def zip_tasks(tier, role):
     cfgs = [dict(nl=1, nr=1, iters=2, max_len=[2, 1], timed=False),
-            dict(nl=2, nr=1, iters=1, max_len=2, timed=False),
+            dict(nl=2, nr=1, iters=1, max_len=[1], timed=False),
             dict(nl=1, nr=1, iters=1, max_len=2, timed=True)]
     if tier != 'quick':
         cfgs += [dict(nl=2, nr=2, iters=2, max_len=[2, 1], timed=False),
